@@ -20,6 +20,7 @@ type Env struct {
 	pkg   *types.Package
 	depth int
 	loop  *loopInfo // the loop whose invariant is being evaluated ($k = its hidden range index)
+	cur   *State    // inside old()/at(): the state the enclosing clause is evaluated in (locals that the older state lacks keep their current value)
 }
 
 func (x *Exec) envFor(fr *Frame, st *State, old *State) *Env {
@@ -184,6 +185,9 @@ func (e *Env) Eval(ex Expr) (Val, error) {
 		}
 		n := e.clone()
 		n.st = st
+		if n.cur == nil {
+			n.cur = e.st
+		}
 		// entry values of parameters
 		if e.fr != nil {
 			for k, v := range e.fr.paramVals {
@@ -342,6 +346,12 @@ func (e *Env) ident(name string) (Val, error) {
 		if keys := e.fr.localKeys[base]; len(keys) >= ord {
 			if v, ok := e.st.Vars[keys[ord-1]]; ok {
 				return v, nil
+			}
+			// inside old()/at(): a local the older state does not have yet denotes its current value
+			if e.cur != nil {
+				if v, ok := e.cur.Vars[keys[ord-1]]; ok {
+					return v, nil
+				}
 			}
 			// a local of this function that does not exist on this path (declared in a block the path did not
 			// go through): an arbitrary value of its type
@@ -1027,9 +1037,9 @@ func (e *Env) quant(t EQuant) (Val, error) {
 		var alts [][]string
 		for _, d := range decls {
 			name := strings.Fields(d[1:])[0]
-			// the indexed array is a component symbol or one select deep (elements of a slice: (select (select E ptr) q))
-			re := regexp.MustCompile(`\(select ([^\s()]+|\(select [^\s()]+ [^\s()]+\)) ` + regexp.QuoteMeta(name) + `\)`)
-			ms := re.FindAllStringSubmatch(body.S, -1)
+			// every term (select A v) with A any (balanced) array term — a component symbol, the elements of a slice
+			// (select E ptr), the key set of a nested map (select MD (select (select MV m) k)), …
+			ms := selectTermsOf(body.S, name)
 			seen := map[string]bool{}
 			var mine []string
 			for _, m := range ms {
@@ -1073,6 +1083,64 @@ func (e *Env) quant(t EQuant) (Val, error) {
 		return scalar(types.Typ[types.Bool], Term{fmt.Sprintf("(%s (%s) (! %s%s))", q, strings.Join(decls, " "), body.S, pat), SBool}), nil
 	}
 	return scalar(types.Typ[types.Bool], Term{fmt.Sprintf("(%s (%s) %s)", q, strings.Join(decls, " "), body.S), SBool}), nil
+}
+
+// selectTermsOf finds the terms "(select A v)" in s whose index is exactly the symbol v; it returns, like a regexp
+// submatch list, pairs {whole term, A}.
+func selectTermsOf(s, v string) [][]string {
+	var out [][]string
+	suffix := " " + v + ")"
+	for from := 0; ; {
+		i := strings.Index(s[from:], suffix)
+		if i < 0 {
+			break
+		}
+		end := from + i + len(suffix) // one past the closing paren
+		from = from + i + 1
+		// walk back over the balanced array term that ends right before " v)"
+		j := end - len(suffix) // index of the space before v
+		k := j - 1
+		if k < 0 {
+			continue
+		}
+		start := -1
+		if s[k] == ')' {
+			depth := 0
+			for p := k; p >= 0; p-- {
+				if s[p] == ')' {
+					depth++
+				} else if s[p] == '(' {
+					depth--
+					if depth == 0 {
+						start = p
+						break
+					}
+				}
+			}
+		} else {
+			p := k
+			for p >= 0 && s[p] != ' ' && s[p] != '(' && s[p] != ')' {
+				p--
+			}
+			start = p + 1
+		}
+		if start < 8 || s[start-8:start] != "(select " {
+			continue
+		}
+		arr := s[start:j]
+		bad := false
+		for _, op := range []string{"(ite ", "(and ", "(or ", "(not ", "(=> ", "(= ", "(< ", "(<= ", "(> ", "(>= ", "(forall ", "(exists ", "(let ", "(distinct "} {
+			if strings.Contains(arr, op) {
+				bad = true // connectives cannot occur in patterns
+				break
+			}
+		}
+		if bad {
+			continue
+		}
+		out = append(out, []string{s[start-8 : end], arr})
+	}
+	return out
 }
 
 // inlineSpecs replaces calls of (plain, old-free) spec functions by their bodies at AST level, so that syntactic
@@ -1374,6 +1442,47 @@ func (e *Env) callExpr(t ECall) (Val, error) {
 		return Val{}, fmt.Errorf("spawned(): counter not initialised")
 	case "now": // the ghost clock: the latest reading of time.Now()
 		return scalar(nil, u.ghost(e.st, "time.now", SInt)), nil
+	case "visited": // visited(k) / visited(n, k): has key k already been handed out by the (n-th, in source order) range over a map?
+		if e.fr == nil {
+			return Val{}, fmt.Errorf("visited() outside a function")
+		}
+		ord := 1
+		karg := t.Args[len(t.Args)-1]
+		if len(t.Args) == 2 {
+			if lit, ok := t.Args[0].(EInt); ok {
+				fmt.Sscanf(lit.V, "%d", &ord)
+			}
+		}
+		keys := e.fr.mapRangeKeys()
+		if ord < 1 || ord > len(keys) {
+			return Val{}, fmt.Errorf("unknown identifier visited(%d): the function has %d range-over-map loops", ord, len(keys))
+		}
+		vv, ok := e.st.Vars[keys[ord-1]]
+		if !ok {
+			return scalar(boolT, False), nil // the loop has not started on this path
+		}
+		kv, err := e.Eval(karg)
+		if err != nil {
+			return Val{}, err
+		}
+		return scalar(boolT, Select(vv.S[0], kv.One())), nil
+	case "live": // a non-nil reference to an object that exists in the current state (allocated so far)
+		v, err := e.Eval(t.Args[0])
+		if err != nil {
+			return Val{}, err
+		}
+		ref := v.S[0]
+		if v.T != nil {
+			if _, isIface := v.T.Underlying().(*types.Interface); isIface && len(v.S) == 2 {
+				ref = v.S[1]
+			}
+		}
+		g := And(Neq(ref, IntLit(0)), Ge(App("root", SInt, ref), IntLit(1)), Le(App("root", SInt, ref), e.st.Alloc))
+		if et, ok := ptrStructElem(v.T); ok {
+			// … and it is an object of the pointed-to struct type (references are untyped integers in the model)
+			g = And(g, Eq(App("dyn", SInt, ref), IntLit(int64(structTypeID(et)))))
+		}
+		return scalar(boolT, g), nil
 	case "isfresh": // allocated after the pre-state
 		v, err := e.Eval(t.Args[0])
 		if err != nil {
